@@ -357,7 +357,10 @@ type ReadPlan struct {
 	OnFail func() `json:"-"`
 	// OnReach, if set, runs once, right after the read that delivers byte offset ReachAt-1 (the reader has
 	// handed over everything up to ReachAt; e.g. the user presses Ctrl-C at that moment).
-	ReachAt int    `json:"reach_at,omitempty"`
+	// CloseErr, if set, is what Close returns (a torn connection reports on Close as well); the reader counts
+	// as closed all the same.
+	CloseErr error `json:"-"`
+	ReachAt  int   `json:"reach_at,omitempty"`
 	OnReach func() `json:"-"`
 }
 
@@ -497,7 +500,7 @@ func (p *planReader) Close() error {
 	}
 	p.closed = true
 	p.l.mu.Unlock()
-	return nil
+	return p.plan.CloseErr
 }
 
 // ---------------------------------------------------------------------------------------------
